@@ -8,10 +8,10 @@ from . import common as C
 sys.path.insert(0, os.path.join(C.VERIF, "xlate"))
 
 TRUSTED = [
-    "xlate/config.py + cfun.py + cstate.py + symexec.py: clang-14 JSON AST -> Lean (symbolic execution of copy_api_from_app/verify_settings/svt_svt_enc_init_parameter into per-member normal form); refuses on non-whitelisted nodes",
-    "opaque in the model: manual prediction structure validation loop and pred_struct contents",
-    "Spec/ConfigDomain.lean: hand-written domain (from Docs/svt-av1_encoder_user_guide.md + EbSvtAv1Enc.h); conjuncts marked code-defined are not independently specified",
-    "harness/setparam.c: real svt_av1_enc_init_handle/set_parameter on a fresh handle per case",
+    "xlate/config.py + cfun.py + cstate.py + symexec.py: clang-14 JSON AST -> Lean (symbolic execution of copy_api_from_app/verify_settings/svt_svt_enc_init_parameter into per-member normal form; the manual-prediction-structure block of verify_settings as a state-passing fold; EB_MEMCPY of pred_struct as a bounded prefix copy); refuses on non-whitelisted nodes",
+    "Spec/ConfigDomain.lean: hand-written domain in plain integer arithmetic (from Docs/svt-av1_encoder_user_guide.md + EbSvtAv1Enc.h + the C code read by hand where no formula is documented); it refers to no generated definition (checked textually on every run)",
+    "C shifts whose count is >= the operand width (undefined in C) are modelled mathematically (all bits shifted out); configurations where an unvalidated hierarchical_levels >= 31 reaches such a shift (only with enable_manual_pred_struct) are not compared with the real library",
+    "harness/setparam.c: real svt_av1_enc_init_handle/set_parameter on a fresh handle per case (forked child per case)",
 ]
 
 
@@ -31,10 +31,38 @@ def setparam_exe():
                              extra=["-I" + C.gen_src_dir()])
 
 
+def _run_real_once(exe, lines, timeout, env):
+    p = subprocess.run([exe], input=("\n".join(lines) + "\n").encode(), stdout=subprocess.PIPE, stderr=subprocess.PIPE, timeout=timeout, env=env)
+    return [o for o in p.stdout.decode().split("\n") if o.strip()], p.returncode
+
+
 def run_real(lines, timeout=900):
+    """One verdict line per case line.  Configurations with a manual prediction structure go through separate harness processes
+    (small batches, glibc heap checking on): the library overruns heap blocks for some structures it accepts, and that must neither
+    go unnoticed nor leak into the verdicts of later cases.  A harness that dies is restarted with the remaining cases."""
     exe = setparam_exe()
-    p = subprocess.run([exe], input=("\n".join(lines) + "\n").encode(), stdout=subprocess.PIPE, stderr=subprocess.PIPE, timeout=timeout)
-    return p.stdout.decode().split("\n"), p.returncode
+    res = [None] * len(lines)
+    plain = [i for i, l in enumerate(lines) if not re.search(r"\benable_manual_pred_struct=-?[1-9]", l)]
+    mps = [i for i, l in enumerate(lines) if re.search(r"\benable_manual_pred_struct=-?[1-9]", l)]
+    env_mps = dict(os.environ, MALLOC_CHECK_="3")
+    batches = [(plain, None)] + [(mps[k:k + 40], env_mps) for k in range(0, len(mps), 40)]
+    rc_all = 0
+    for idx, env in batches:
+        todo = list(idx)
+        while todo:
+            out, rc = _run_real_once(exe, [lines[i] for i in todo], timeout, env)
+            for i, o in zip(todo, out):
+                res[i] = o
+            if len(out) >= len(todo):
+                break
+            rc_all = rc or rc_all
+            if not out or "crash" not in out[-1]:
+                # died without a message (e.g. glibc abort while the handle for the next case was created): blame the next case
+                res[todo[len(out)]] = "accept=- crash=died(rc=%s)" % rc
+                todo = todo[len(out) + 1:]
+            else:
+                todo = todo[len(out):]
+    return [r if r is not None else "" for r in res], rc_all
 
 
 def run_model(lines):
@@ -72,6 +100,199 @@ def constants_by_field():
 
 
 BASE = "source_width=64 source_height=64"
+
+
+# ----------------------------------------------------------------------------- manual prediction structures
+def pred_struct_shapes():
+    """/repo/Config/PredStruct_level*.cfg -> {entry count: [entry dicts indexed by display order]} (the way EbAppConfig.c fills them)"""
+    import glob
+    shapes = {}
+    for f in sorted(glob.glob(os.path.join(C.REPO, "Config", "PredStruct_level*.cfg"))):
+        ents = {}
+        for line in open(f):
+            if not line.startswith("PredStructEntry"):
+                continue
+            v = [int(x) for x in line.split(":", 1)[1].split()]
+            disp, dec, tl, n0, n1 = v[:5]
+            refs = v[5:]
+            ents[disp] = {"decode_order": dec, "temporal_layer_index": tl,
+                          "ref_list0": (refs[:n0] + [0, 0, 0, 0])[:4], "ref_list1": (refs[n0:n0 + n1][:3] + [0, 0, 0, 0])[:4]}
+        if ents and sorted(ents) == list(range(len(ents))):
+            shapes[len(ents)] = [ents[i] for i in range(len(ents))]
+    return shapes
+
+
+def chain_struct(n):
+    """a structure of n entries that verify_settings accepts: every entry references the previous picture"""
+    return [{"decode_order": i % 32, "temporal_layer_index": 0, "ref_list0": [1, 0, 0, 0], "ref_list1": [0, 0, 0, 0]} for i in range(n)]
+
+
+def mps_line(num, ents, extra=""):
+    toks = ["enable_manual_pred_struct=1", "manual_pred_struct_entry_num=%d" % num]
+    for i, e in enumerate(ents[:32]):
+        if e["decode_order"]:
+            toks.append("pred_struct_decode_order[%d]=%d" % (i, e["decode_order"]))
+        if e["temporal_layer_index"]:
+            toks.append("pred_struct_temporal_layer_index[%d]=%d" % (i, e["temporal_layer_index"]))
+        for nm in ("ref_list0", "ref_list1"):
+            for j, v in enumerate(e[nm]):
+                if v:
+                    toks.append("pred_struct_%s[%d]=%d" % (nm, 4 * i + j, v))
+    return "CASE 0 %s %s%s" % (BASE, " ".join(toks), (" " + extra) if extra else "")
+
+
+def mps_cases(chk):
+    import copy
+    out = []
+    shapes = pred_struct_shapes()
+    quick = chk.tier == "quick"
+    for n, base in shapes.items():
+        out.append((mps_line(n, base), "mps:shape"))
+        pos = list(range(n))
+        if quick and n > 16:
+            pos = sorted(set([0, 1, n - 2, n - 1] + [chk.rng.below(n) for _ in range(6)]))
+        for p in pos:
+            muts = []
+
+            def mut(f):
+                e = copy.deepcopy(base)
+                f(e[p])
+                muts.append(e)
+            mut(lambda e: e.update(ref_list0=[0, 0, 0, 0]))                       # no list0 reference at all
+            mut(lambda e: e.update(ref_list0=[p + 2, 0, 0, 0]))                   # only reference is before the mini-GOP
+            mut(lambda e: e.update(ref_list0=[p + 1, 0, 0, 0]))                   # boundary: exactly the previous mini-GOP end
+            mut(lambda e: e.update(ref_list0=[0, 0, 0, p + 1]))                   # found in the last cell
+            mut(lambda e: e["ref_list0"].__setitem__(chk.rng.below(4), -1))       # backward frame in list0
+            mut(lambda e: e.update(decode_order=31))
+            mut(lambda e: e.update(decode_order=32))
+            mut(lambda e: e.update(temporal_layer_index=32))
+            j = chk.rng.below(3)
+            mut(lambda e: e["ref_list1"].__setitem__(j, (p + 1) - n))             # boundary: last picture of the mini-GOP
+            mut(lambda e: e["ref_list1"].__setitem__(j, (p + 1) - n - 1))         # one past the end
+            mut(lambda e: e["ref_list1"].__setitem__(3, (p + 1) - n - 1))         # fourth cell is ignored
+            for e in muts:
+                out.append((mps_line(n, e), "mps:mutate"))
+    # every entry count, also those that are not a power of two; one entry without a list0 reference at a seeded position
+    for n in ([1, 2, 3, 4, 5, 7, 8, 9, 16, 17, 31, 32] if quick else range(1, 33)):
+        out.append((mps_line(n, chain_struct(n)), "mps:count"))
+        if n >= 2:
+            e = chain_struct(n)
+            e[chk.rng.range(1, n - 1)]["ref_list0"] = [0, 0, 0, 0]
+            out.append((mps_line(n, e), "mps:count"))
+        # the entry count says n but more entries are filled in (must be ignored)
+        if n < 32:
+            e = chain_struct(n) + [{"decode_order": 40, "temporal_layer_index": 40, "ref_list0": [-5, 0, 0, 0], "ref_list1": [-100, 0, 0, 0]}]
+            out.append((mps_line(n, e), "mps:count"))
+    for n in (33, 64, 2147483647, -1, -2147483648):            # copy runs out of bounds: the model must flag them (never run for real)
+        out.append((mps_line(n, chain_struct(2)), "mps:count-oob"))
+    # type extremes in single cells
+    for n in (1, 4):
+        for nm, j, v in (("ref_list1", 0, -2147483648), ("ref_list1", 0, 2147483647), ("ref_list1", 2, -2147483647), ("ref_list0", 0, 2147483647),
+                         ("ref_list0", 3, -2147483648), ("ref_list0", 1, 2147483647)):
+            e = chain_struct(n)
+            e[n - 1][nm][j] = v
+            out.append((mps_line(n, e), "mps:extreme"))
+        for nm, v in (("decode_order", 4294967295), ("temporal_layer_index", 4294967295), ("decode_order", 2147483648)):
+            e = chain_struct(n)
+            e[0][nm] = v
+            out.append((mps_line(n, e), "mps:extreme"))
+    # interplay with the members that copy_api_from_app derives from the structure / uses before it
+    for n in (1, 2, 8, 32):
+        for extra in ("hierarchical_levels=0", "hierarchical_levels=5", "hierarchical_levels=7", "hierarchical_levels=30", "rate_control_mode=1 intra_period_length=-2",
+                      "rate_control_mode=1 intra_period_length=31 look_ahead_distance=31", "look_ahead_distance=200", "enable_tpl_la=0 look_ahead_distance=4294967295"):
+            out.append((mps_line(n, chain_struct(n), extra), "mps:coupled"))
+    # seeded random structures
+    nr = 150 if quick else 3000
+    for _ in range(nr):
+        n = chk.rng.choice([1, 2, 3, 4, 5, 8, 16, 31, 32])
+        es = []
+        for i in range(n):
+            def r0():
+                m = chk.rng.below(6)
+                return [0, 1, i + 1, i + 2, chk.rng.range(0, 40), chk.rng.range(-2, 3)][m]
+            def r1():
+                m = chk.rng.below(6)
+                return [0, -1, (i + 1) - n, (i + 1) - n - 1, chk.rng.range(-40, 40), chk.rng.range(-2, 3)][m]
+            es.append({"decode_order": chk.rng.choice([0, i, 31, 31, 5, 32]) if chk.rng.below(8) == 0 else i,
+                       "temporal_layer_index": chk.rng.choice([0, 1, 5, 31, 32]) if chk.rng.below(8) == 0 else chk.rng.below(6),
+                       "ref_list0": [1 if chk.rng.below(4) else r0(), r0() if chk.rng.below(3) == 0 else 0, 0 if chk.rng.below(4) else r0(), 0 if chk.rng.below(4) else r0()],
+                       "ref_list1": [r1() if chk.rng.below(2) else 0, r1() if chk.rng.below(4) == 0 else 0, r1() if chk.rng.below(4) == 0 else 0, r1() if chk.rng.below(4) == 0 else 0]})
+        out.append((mps_line(n, es), "mps:random"))
+    return out
+
+
+def product_cases(tag, g, cases, base=BASE):
+    keys = list(g)
+    idx = [0] * len(keys)
+    while True:
+        ov = " ".join("%s=%d" % (k, g[k][i]) for k, i in zip(keys, idx))
+        cases.append(("CASE 0 %s %s" % (base, ov), "grid:" + tag))
+        j = 0
+        while j < len(keys):
+            idx[j] += 1
+            if idx[j] < len(g[keys[j]]):
+                break
+            idx[j] = 0
+            j += 1
+        if j == len(keys):
+            break
+
+
+def arithmetic_cases(chk):
+    """coupled members of the rules whose arithmetic is interesting (frame rate, default intra period, look-ahead, HME sums, tiles)"""
+    cases = []
+    Q = 65536
+    # frame rate from numerator / denominator: the two 8-bit shifts drop bits from 2^24 (first) and for quotients >= 2^24 (second)
+    nums = [1, 24, 25, 255, 256, 30000, 60000, 65535, 65536, 65537, 65536 * 2, 65536 * 240, 65536 * 240 + 1, 239999, 240000, 240001, 300000, 480000,
+            1000000, 2 ** 24 - 1, 2 ** 24, 2 ** 24 + 1, 2 ** 24 + 25, 2 ** 24 + 241, 2 ** 31, 2 ** 32 - 1]
+    dens = [1, 2, 250, 999, 1000, 1001, 2048, 65536, 2 ** 24, 2 ** 32 - 1]
+    product_cases("fps-num-den", {"frame_rate_numerator": nums, "frame_rate_denominator": dens}, cases)
+    for _ in range(150 if chk.tier == "quick" else 5000):
+        num = chk.rng.choice([chk.rng.range(1, 2 ** 32 - 1), chk.rng.range(1, 2 ** 17), Q * chk.rng.range(1, 400) + chk.rng.range(-2, 2), 1000 * chk.rng.range(1, 400),
+                              1001 * chk.rng.range(1, 300), 2 ** 24 + chk.rng.range(-300, 300)])
+        den = chk.rng.choice([1, 1, 1000, 1001, 2048, chk.rng.range(1, 5000), chk.rng.range(1, 2 ** 32 - 1)])
+        cases.append(("CASE 0 %s frame_rate_numerator=%d frame_rate_denominator=%d" % (BASE, max(1, min(num, 2 ** 32 - 1)), den), "grid:fps-random"))
+    product_cases("fps-fallback", {"frame_rate": [0, 1, 60, 240, 241, 999, 1000, 65535, 65536, 240 * Q, 240 * Q + 1, 2 ** 32 - 1],
+                                   "frame_rate_numerator": [0, 30000], "frame_rate_denominator": [0, 1001]}, cases)
+    # default intra period (intra_period_length = -2): frame rate in both forms x mini-GOP size x refresh type, judged by the rate-control limits
+    product_cases("default-ip", {"intra_period_length": [-2], "rate_control_mode": [0, 1, 2],
+                                 "frame_rate": [1, 24, 60, 240, 255, 256, 257, 271, 272, 999, 1000, 24 * Q, 240 * Q],
+                                 "hierarchical_levels": [0, 3, 4, 5], "intra_refresh_type": [1, 2]}, cases)
+    product_cases("default-ip-numden", {"intra_period_length": [-2], "rate_control_mode": [1], "frame_rate_numerator": [240000, 254000, 255000, 256000, 272000, 16777216 + 300],
+                                        "frame_rate_denominator": [1000, 1], "hierarchical_levels": [0, 4], "intra_refresh_type": [1, 2]}, cases)
+    # look-ahead: default vs capped value, against rate control, intra period, mini-GOP size, frame rate, tpl, first-pass statistics
+    product_cases("lad", {"rate_control_mode": [0, 1, 2, 3], "intra_period_length": [-2, -1, 0, 31, 120, 121, 200, 255],
+                          "look_ahead_distance": [0, 1, 33, 34, 120, 121, 4294967294, 4294967295], "enable_tpl_la": [0, 1]}, cases)
+    product_cases("lad-cap", {"rate_control_mode": [0, 1], "look_ahead_distance": [2, 3, 4, 17, 18, 33, 34, 65, 66, 119, 120, 121],
+                              "hierarchical_levels": [0, 3, 4, 5], "frame_rate": [8, 60, 61, 25 * Q], "enable_tpl_la": [0]}, cases)
+    product_cases("lad-2pass", {"rate_control_mode": [0, 1], "look_ahead_distance": [0, 5, 4294967295], "enable_tpl_la": [0, 1, 2], "rc_twopass_stats_in_sz": [0, 5],
+                                "intra_period_length": [-1, 31]}, cases)
+    # HME: region counts x the six arrays; level-0 totals must match, level-1/2 totals must lie in [1, 480]; uint32 wrap of the sums
+    pairs = [(0, 0), (1, 0), (0, 1), (480, 0), (480, 1), (240, 240), (240, 241), (4294967295, 2), (481, 0), (1, 479), (4294967295, 1)]
+    for nw in (1, 2):
+        for nh in (1, 2):
+            cnt = "number_hme_search_region_in_width=%d number_hme_search_region_in_height=%d hme_level0_total_search_area_width=%d hme_level0_total_search_area_height=%d" % (
+                nw, nh, 32 * nw, 12 if nh == 1 else 25)
+            for lvl in (1, 2):
+                for d in ("width", "height"):
+                    for x, y in pairs:
+                        cases.append(("CASE 0 %s %s hme_level%d_search_area_in_%s_array[0]=%d hme_level%d_search_area_in_%s_array[1]=%d" % (BASE, cnt, lvl, d, x, lvl, d, y), "grid:hme-sum"))
+            for d, n in (("width", nw), ("height", nh)):
+                for x, y in pairs:
+                    tot = (x + (y if n == 2 else 0)) % 2 ** 32
+                    for t in sorted({tot, (tot + 1) % 2 ** 32, x, (x + y) % 2 ** 32}):
+                        cases.append(("CASE 0 %s number_hme_search_region_in_width=%d number_hme_search_region_in_height=%d "
+                                      "hme_level0_total_search_area_%s=%d hme_level0_search_area_in_%s_array[0]=%d hme_level0_search_area_in_%s_array[1]=%d %s" % (
+                                          BASE, nw, nh, d, t, d, x, d, y,
+                                          ("hme_level0_total_search_area_height=%d" % (12 if nh == 1 else 25)) if d == "width" else ("hme_level0_total_search_area_width=%d" % (32 * nw))),
+                                      "grid:hme-sum"))
+    # tiles x picture size (the product rule does not depend on the size; the size rules must not interfere)
+    for w, h in ((64, 64), (4096, 2160), (1920, 1080)):
+        product_cases("tiles-size", {"tile_rows": [0, 2, 3, 4, 5, 6, 7], "tile_columns": [0, 1, 2, 3, 4, 5]}, cases, base="source_width=%d source_height=%d" % (w, h))
+    # profile x depth x format, asm flag word, hbd flag
+    product_cases("asm", {"use_cpu_flags": [0, 1, 2 ** 62, 2 ** 63 - 1, 2 ** 63, 2 ** 63 + 1, 2 ** 64 - 1]}, cases)
+    product_cases("hbd2", {"encoder_bit_depth": [8, 9, 10], "enable_hbd_mode_decision": [-128, -2, -1, 0, 2, 3, 100, 127]}, cases)
+    return cases
 
 
 def gen_cases(chk, nrand):
@@ -147,6 +368,9 @@ def gen_cases(chk, nrand):
                     for va in g[keys[a]]:
                         for vb in g[keys[b]]:
                             cases.append(("CASE 0 %s %s=%d %s=%d" % (BASE, keys[a], va, keys[b], vb), "grid:" + tag))
+    # (b2) arithmetic of the derived quantities, (b3) manual prediction structures
+    cases += arithmetic_cases(chk)
+    cases += mps_cases(chk)
     # (c) random multi-member configurations: mostly-valid values with a few members pushed to boundaries
     for _ in range(nrand):
         k = chk.rng.range(2, 6)
